@@ -339,10 +339,18 @@ pub fn estimate_preflate_parameters(
 
     let max_token_count = (1 << (6 + mem_level)) - 1;
 
+    // min_len stays at u32::MAX when the Huffman blocks contain no reference at all
+    // (stored blocks mixed with literal-only blocks); it is serialized in 16 bits
+    let min_len = if info.min_len == u32::MAX {
+        0
+    } else {
+        info.min_len
+    };
+
     let cl = estimate_preflate_comp_level(
         window_bits,
         mem_level,
-        info.min_len,
+        min_len,
         unpacked_output,
         add_policy,
         blocks,
